@@ -168,6 +168,13 @@ def field_mentions(db, fn, depth=0, seen=None):
         elif e['ev'] == 'init':
             if e.get('field') and not e.get('implicit'):
                 out.add(('this', e['field'], 'w'))
+            if e.get('delegating') and isinstance(e.get('e'), dict) and e['e'].get('k') == 'construct' and depth < 3:
+                # a delegating constructor: what the target constructor initialises, this one initialises
+                tgt = db.fns.get(e['e'].get('key'))
+                if tgt is not None:
+                    for (rr, fld, md) in field_mentions(db, tgt, depth + 1, seen):
+                        if rr == 'this':
+                            out.add(('this', fld, md))
             walk(e.get('e'))
         elif e['ev'] == 'decl':
             for v in e['vars']:
@@ -308,7 +315,17 @@ def check_coverage(run, db, cls, ops):
             for F in scalars:
                 wrote = [('this.' + F) in x.fields or any(w[0] == 'this.' + F for w in x.writes) for x in S]
                 helper = [any(c[1].get('k') == 'call' and c[1].get('cls') == cls and c[1].get('short') not in ('operator=',) for c in x.calls) for x in S]
-                if any(wrote) and any(not w and not h for w, h in zip(wrote, helper)):
+                # a path that has established that the source holds nothing (other.empty(), other.capacity_ == 0) has nothing to take over
+                def source_empty(x):
+                    for c, tk in x.conds:
+                        if '$other' not in c:
+                            continue
+                        if tk and (c.endswith('.empty()') or re.search(r'\$other\.\w+ == 0\)$|^\(0 == \$other\.\w+\)$', c) or re.match(r'^!\(\$other\.\w+\)$', c)):
+                            return True
+                        if not tk and re.match(r'^\$other\.\w+$', c):
+                            return True
+                    return False
+                if any(wrote) and any(not w and not h and not source_empty(x) for w, h, x in zip(wrote, helper, S)):
                     cond_missing.append(F)
         if cond_missing:
             run.violation('R-MOVE.1', inst, fn.loc, 'taken over from the source on some paths only: %s (a conditional transfer leaves the new owner with its own old value '
